@@ -8,7 +8,7 @@ namespace JP
 namespace Value
 
 mutual
-theorem eqv_refl : ∀ (v : Value), noDup v = true → eqv v v = true
+theorem eqv_refl_E : ∀ (v : Value), noDup v = true → eqv v v = true
   | .null, _ => by simp [eqv]
   | .bool b, _ => by simp [eqv]
   | .num l, _ => by simp [eqv]
@@ -19,7 +19,7 @@ theorem eqv_refl : ∀ (v : Value), noDup v = true → eqv v v = true
   | .obj ms, h => by
     simp only [noDup, Bool.and_eq_true] at h
     simp only [eqv, Bool.and_eq_true]
-    refine ⟨eqvM_sub ms ms h.2 ?_, (subKeys_iff ms ms).mpr (fun k hk => hk)⟩
+    refine ⟨eqvM_sub ms ms h.2 ?_, (subKeys_iff_E ms ms).mpr (fun k hk => hk)⟩
     intro k v hm
     exact lookup_of_mem_nodup k v ms ((nodupKeys_iff _).mp h.1) hm
 theorem eqvL_refl : ∀ (xs : List Value), noDupL xs = true → eqvL xs xs = true
@@ -27,7 +27,7 @@ theorem eqvL_refl : ∀ (xs : List Value), noDupL xs = true → eqvL xs xs = tru
   | x :: xs, h => by
     simp only [noDupL, Bool.and_eq_true] at h
     simp only [eqvL, Bool.and_eq_true]
-    exact ⟨eqv_refl x h.1, eqvL_refl xs h.2⟩
+    exact ⟨eqv_refl_E x h.1, eqvL_refl xs h.2⟩
 theorem eqvM_sub : ∀ (xs ys : Members), noDupM xs = true →
     (∀ k v, (k, v) ∈ xs → lookup k ys = some v) → eqvM xs ys = true
   | [], _, _, _ => rfl
@@ -35,15 +35,15 @@ theorem eqvM_sub : ∀ (xs ys : Members), noDupM xs = true →
     simp only [noDupM, Bool.and_eq_true] at h
     simp only [eqvM, Bool.and_eq_true]
     rw [hl k v (by simp)]
-    exact ⟨eqv_refl v h.1, eqvM_sub xs ys h.2 (fun k' v' hm => hl k' v' (List.mem_cons_of_mem _ hm))⟩
+    exact ⟨eqv_refl_E v h.1, eqvM_sub xs ys h.2 (fun k' v' hm => hl k' v' (List.mem_cons_of_mem _ hm))⟩
 end
 
 
-theorem eqvM_iff : ∀ (xs ys : Members), eqvM xs ys = true ↔
+theorem eqvM_iff_E : ∀ (xs ys : Members), eqvM xs ys = true ↔
     ∀ k v, (k, v) ∈ xs → ∃ w, lookup k ys = some w ∧ eqv v w = true
   | [], ys => by simp [eqvM]
   | (k0, v0) :: xs, ys => by
-    simp only [eqvM, Bool.and_eq_true, eqvM_iff xs ys, List.mem_cons]
+    simp only [eqvM, Bool.and_eq_true, eqvM_iff_E xs ys, List.mem_cons]
     constructor
     · intro ⟨h1, h2⟩ k v hm
       cases hm with
@@ -89,17 +89,17 @@ theorem eqv_symm' : ∀ (a b : Value), noDup a = true → noDup b = true → eqv
       simp only [noDup, Bool.and_eq_true] at ha hb
       simp only [eqv, Bool.and_eq_true] at h ⊢
       have hsub := eqvM_keys_subset xs ys h.1
-      refine ⟨?_, (subKeys_iff xs ys).mpr hsub⟩
-      rw [eqvM_iff]
+      refine ⟨?_, (subKeys_iff_E xs ys).mpr hsub⟩
+      rw [eqvM_iff_E]
       intro k w hm
       have hk : k ∈ xs.map Prod.fst :=
-        (subKeys_iff ys xs).mp h.2 k (List.mem_map.mpr ⟨(k, w), hm, rfl⟩)
+        (subKeys_iff_E ys xs).mp h.2 k (List.mem_map.mpr ⟨(k, w), hm, rfl⟩)
       cases hl : lookup k xs with
-      | none => exact absurd hk ((lookup_eq_none_iff k xs).mp hl)
+      | none => exact absurd hk ((lookup_eq_none_iff_E k xs).mp hl)
       | some v =>
         refine ⟨v, rfl, ?_⟩
-        have hmx := mem_of_lookup k v xs hl
-        obtain ⟨w', hl', he⟩ := (eqvM_iff xs ys).mp h.1 k v hmx
+        have hmx := mem_of_lookup_E k v xs hl
+        obtain ⟨w', hl', he⟩ := (eqvM_iff_E xs ys).mp h.1 k v hmx
         have : lookup k ys = some w := lookup_of_mem_nodup k w ys ((nodupKeys_iff _).mp hb.1) hm
         rw [this] at hl'; cases hl'
         exact eqvM_symm_mem xs ha.2 k v hmx w (noDup_of_mem k w ys hb.2 hm) he
@@ -128,7 +128,7 @@ theorem eqvM_symm_mem : ∀ (xs : Members), noDupM xs = true → ∀ k v, (k, v)
     | inr hm => exact eqvM_symm_mem xs h.2 k v hm w hw he
 end
 
-theorem eqv_symm (a b : Value) (ha : noDup a = true) (hb : noDup b = true) : eqv a b = eqv b a := by
+theorem eqv_symm_E (a b : Value) (ha : noDup a = true) (hb : noDup b = true) : eqv a b = eqv b a := by
   cases h1 : eqv a b with
   | true => exact (eqv_symm' a b ha hb h1).symm
   | false =>
@@ -137,7 +137,7 @@ theorem eqv_symm (a b : Value) (ha : noDup a = true) (hb : noDup b = true) : eqv
     | true => rw [eqv_symm' b a hb ha h2] at h1; cases h1
 
 mutual
-theorem eqv_trans : ∀ (a b c : Value), eqv a b = true → eqv b c = true → eqv a c = true
+theorem eqv_trans_E : ∀ (a b c : Value), eqv a b = true → eqv b c = true → eqv a c = true
   | .null, b, c, h1, h2 => by cases b <;> simp [eqv] at h1; exact h2
   | .bool x, b, c, h1, h2 => by cases b <;> simp [eqv] at h1; subst h1; exact h2
   | .num x, b, c, h1, h2 => by cases b <;> simp [eqv] at h1; subst h1; exact h2
@@ -164,14 +164,14 @@ theorem eqv_trans : ∀ (a b c : Value), eqv a b = true → eqv b c = true → e
       | obj zs =>
         simp only [eqv, Bool.and_eq_true] at h1 h2 ⊢
         constructor
-        · rw [eqvM_iff]
+        · rw [eqvM_iff_E]
           intro k v hm
-          obtain ⟨w, hl, he⟩ := (eqvM_iff xs ys).mp h1.1 k v hm
-          obtain ⟨u, hl2, he2⟩ := (eqvM_iff ys zs).mp h2.1 k w (mem_of_lookup k w ys hl)
+          obtain ⟨w, hl, he⟩ := (eqvM_iff_E xs ys).mp h1.1 k v hm
+          obtain ⟨u, hl2, he2⟩ := (eqvM_iff_E ys zs).mp h2.1 k w (mem_of_lookup_E k w ys hl)
           exact ⟨u, hl2, eqvM_trans_mem xs k v hm w u he he2⟩
-        · rw [subKeys_iff]
+        · rw [subKeys_iff_E]
           intro k hk
-          exact (subKeys_iff ys xs).mp h1.2 k ((subKeys_iff zs ys).mp h2.2 k hk)
+          exact (subKeys_iff_E ys xs).mp h1.2 k ((subKeys_iff_E zs ys).mp h2.2 k hk)
       | null => simp [eqv] at h2
       | bool y => simp [eqv] at h2
       | num y => simp [eqv] at h2
@@ -195,13 +195,13 @@ theorem eqvL_trans : ∀ (xs ys zs : List Value), eqvL xs ys = true → eqvL ys 
       | nil => simp [eqvL] at h2
       | cons z zs =>
         simp only [eqvL, Bool.and_eq_true] at h1 h2 ⊢
-        exact ⟨eqv_trans x y z h1.1 h2.1, eqvL_trans xs ys zs h1.2 h2.2⟩
+        exact ⟨eqv_trans_E x y z h1.1 h2.1, eqvL_trans xs ys zs h1.2 h2.2⟩
 theorem eqvM_trans_mem : ∀ (xs : Members) (k : Bytes) (v : Value), (k, v) ∈ xs →
     ∀ w u, eqv v w = true → eqv w u = true → eqv v u = true
   | [], _, _, hm, _, _, _, _ => by simp at hm
   | (k0, v0) :: xs, k, v, hm, w, u, h1, h2 => by
     cases List.mem_cons.mp hm with
-    | inl e => cases e; exact eqv_trans v0 w u h1 h2
+    | inl e => cases e; exact eqv_trans_E v0 w u h1 h2
     | inr hm => exact eqvM_trans_mem xs k v hm w u h1 h2
 end
 
